@@ -14,7 +14,8 @@ ACTIONS = ('Buy', 'Sell', 'Roc', 'Sfla', 'Split')
 class Ledger:
     def __init__(self, prog):
         self.prog = prog
-        self.fn = prog.fn(DELTA)
+        from props import anchors
+        self.fn = anchors.ledger_step(prog) or prog.fn(DELTA)
         self.ok = False
         self.why = ''
         if self.fn is None:
@@ -72,6 +73,15 @@ class Ledger:
                 return set()
             cur = d[3]['r']['ops'][0]['pl']['l']
         return set()
+
+    def is_copy_of_previous_acb(self, node, kind):
+        """`new_acb = pre_status.total_acb` — restating the previous cost base is not a change"""
+        if kind != 'stmt' or node['r']['rv'] != 'use' or not is_place(node['r']['ops'][0]):
+            return False
+        org = mir.provenance(self.fn, node['r']['ops'][0], pass_through={'deref', 'clone', 'borrow', 'as_ref'})
+        arith = org.binops or [c for c in org.calls if c.short not in ('deref', 'clone', 'borrow', 'as_ref') and
+                               re.search(r'std::ops::|::max$|::min$|try_from$', c.decl)]
+        return any(fl == 'total_acb' for of, fl in org.fields) and not arith and not org.aggs
 
     def assignments(self, locals_, region=None):
         """[(bb, node, kind)] of definitions of the given locals (statements and call destinations)"""
